@@ -457,6 +457,19 @@ class _Tests(ast.NodeTransformer):
             if to and not tb and _boolean_valued(node.body):
                 return nnf(ast.BoolOp(op=ast.And(), values=[node.test, node.body]) if not node.orelse.value
                            else ast.BoolOp(op=ast.Or(), values=[_not(node.test), node.body]), False, False)
+        # a nested choice that repeats one outcome: one choice on the combined test (tests keep their order and short-circuiting)
+        for _ in range(4):
+            b, o = node.body, node.orelse
+            if isinstance(b, ast.IfExp) and _u(b.body) == _u(o):
+                node.test, node.body = ast.BoolOp(op=ast.And(), values=[node.test, _not(b.test)]), b.orelse
+            elif isinstance(b, ast.IfExp) and _u(b.orelse) == _u(o):
+                node.test, node.body = ast.BoolOp(op=ast.And(), values=[node.test, b.test]), b.body
+            elif isinstance(o, ast.IfExp) and _u(o.body) == _u(b):
+                node.test, node.orelse = ast.BoolOp(op=ast.Or(), values=[node.test, o.test]), o.orelse
+            elif isinstance(o, ast.IfExp) and _u(o.orelse) == _u(b):
+                node.test, node.body, node.orelse = ast.BoolOp(op=ast.And(), values=[_not(node.test), o.test]), o.body, b
+            else:
+                break
         node.test = truth_table(nnf(node.test, False, True))
         t, n = node.test, nnf(node.test, True, True)
         if (_neg_count(n), len(_u(n)), _u(n)) < (_neg_count(t), len(_u(t)), _u(t)):
@@ -530,6 +543,11 @@ class _Tests(ast.NodeTransformer):
             return ast.ListComp(elt=node.args[0].elt, generators=node.args[0].generators)
         if isinstance(node.func, ast.Name) and node.func.id == "set" and len(node.args) == 1 and not node.keywords and isinstance(node.args[0], ast.GeneratorExp):
             return ast.SetComp(elt=node.args[0].elt, generators=node.args[0].generators)
+        if isinstance(node.func, ast.Attribute) and node.func.attr == "update" and len(node.args) == 1 and not node.keywords \
+                and isinstance(node.args[0], (ast.GeneratorExp, ast.ListComp)) and isinstance(node.args[0].elt, ast.Tuple) and len(node.args[0].elt.elts) == 2 \
+                and not _mentions(node.args[0].generators, node.args[0].elt, node.func.value):
+            # a mapping updated from (key, value) pairs: the dictionary display of the same pairs (same keys, same order, last one wins)
+            node.args[0] = ast.DictComp(key=node.args[0].elt.elts[0], value=node.args[0].elt.elts[1], generators=node.args[0].generators)
         if isinstance(node.func, ast.Attribute) and node.func.attr == "update" and len(node.args) == 1 and isinstance(node.args[0], ast.DictComp):
             dc = node.args[0]
             g = dc.generators
